@@ -385,7 +385,15 @@ def _chart(kind_name):
         cd.categories = ["a", "b", "c"]
         cd.add_series("S1", (1.0, 2.5, 3.0))
         cd.add_series("S2", (2.0, 1.5, 0.5))
-        ct = {"bar": XL_CHART_TYPE.BAR_CLUSTERED, "line": XL_CHART_TYPE.LINE_MARKERS}[kind_name]
+        if kind_name == "scatter":
+            from pptx.chart.data import XyChartData
+            cd = XyChartData()
+            ser = cd.add_series("S1")
+            ser.add_data_point(1, 2)
+            ser.add_data_point(2, 3)
+        ct = {"bar": XL_CHART_TYPE.BAR_CLUSTERED, "line": XL_CHART_TYPE.LINE_MARKERS, "area": XL_CHART_TYPE.AREA,
+              "pie": XL_CHART_TYPE.PIE, "doughnut": XL_CHART_TYPE.DOUGHNUT, "radar": XL_CHART_TYPE.RADAR,
+              "scatter": XL_CHART_TYPE.XY_SCATTER}[kind_name]
     s.shapes.add_chart(ct, Emu(100000), Emu(200000), Emu(5000000), Emu(3000000), cd)
     return prs
 
@@ -642,6 +650,11 @@ def make_kinds(rng):
         int_prop("bubble_scale", "BubblePlot.bubble_scale", 0, 300, rng, none=("reads", 100), length=False),
         truthy_prop("vary_by_categories", None, cls="_BasePlot"),      # c:bubbleChart does not declare c:varyColors: oracle only here
     ], part=chart_part))
+    for cname in ("area", "pie", "doughnut", "radar", "scatter"):
+        K.append(Kind(cname + "_plot", (lambda c=cname: _chart(c)), lambda prs: chart0(prs).plots[0], lambda o: o._element, [
+            truthy_prop("vary_by_categories", None, cls="_BasePlot"),
+            truthy_prop("has_data_labels", None, cls="_BasePlot"),
+        ], part=chart_part))
     K.append(Kind("bar_series", b_bar, lambda prs: chart0(prs).plots[0].series[0], lambda o: o._element, [
         truthy_prop("invert_if_negative", "BarSeries.invert_if_negative")], part=chart_part))
     K.append(Kind("line_series", b_line, lambda prs: chart0(prs).plots[0].series[0], lambda o: o._element, [
@@ -715,6 +728,35 @@ def value_class(v):
     return type(v).__name__
 
 
+def find_by_path(anchor, path, nv=False):
+    """element below the anchor at a model path ('a/b/c'), or None"""
+    e = anchor
+    for i, t in enumerate(path.split("/")):
+        kids = [c for c in e if isinstance(c.tag, str)]
+        nxt = None
+        for j, c in enumerate(kids):
+            if (nv and i == 0 and t == "*nv" and j == 0) or ptag(c.tag) == t:
+                nxt = c
+                break
+        if nxt is None:
+            return None
+        e = nxt
+    return e
+
+
+def strip(anchor, paths, nv=False):
+    """remove the optional elements a setter would create: the state the model's witnesses start from"""
+    n = 0
+    for pth_ in sorted(paths, key=lambda x: -x.count("/")):
+        if not pth_ or pth_.startswith("~"):
+            continue
+        e = find_by_path(anchor, pth_, nv)
+        if e is not None and e.getparent() is not None:
+            e.getparent().remove(e)
+            n += 1
+    return n
+
+
 # ------------------------------------------------------------------ oracle
 def eq_reading(a, b):
     if a[0] != b[0]:
@@ -746,20 +788,94 @@ def expected_ok(p, read, v):
     return r == v
 
 
-def oracle_trial(ck, kind, p, v, verdict, reopen, stats, where="fresh", prs=None, nav=None):
-    """One assignment on a fresh object, judged by the property's statement alone."""
+def val_spec(v):
+    """JSON description of an assigned value, for exact replay"""
+    import enum
+    from pptx.dml.color import RGBColor
+    if v is None:
+        return {"t": "none"}
+    if isinstance(v, bool):
+        return {"t": "bool", "v": v}
+    if isinstance(v, RGBColor):
+        return {"t": "rgb", "v": str(v)}
+    if isinstance(v, enum.Enum):
+        return {"t": "enum", "module": type(v).__module__, "cls": type(v).__name__, "name": v.name}
+    if is_length(v):
+        return {"t": "length", "v": int(v)}
+    if isinstance(v, int):
+        return {"t": "int", "v": v}
+    if isinstance(v, float):
+        return {"t": "float", "v": v.hex() if v == v and abs(v) != math.inf else repr(v)}
+    if isinstance(v, str):
+        return {"t": "str", "v": v}
+    if isinstance(v, complex):
+        return {"t": "complex", "v": [v.real, v.imag]}
+    if isinstance(v, bytes):
+        return {"t": "bytes", "v": v.decode("latin-1")}
+    if isinstance(v, tuple):
+        return {"t": "tuple", "v": list(v)}
+    return {"t": "other", "v": repr(v)}
+
+
+def val_from_spec(d):
+    import importlib
+    from pptx.dml.color import RGBColor
+    from pptx.util import Emu
+    t = d["t"]
+    if t == "none":
+        return None
+    if t in ("bool", "int", "str"):
+        return d["v"]
+    if t == "rgb":
+        return RGBColor.from_string(d["v"])
+    if t == "enum":
+        return getattr(getattr(importlib.import_module(d["module"]), d["cls"]), d["name"])
+    if t == "length":
+        return Emu(d["v"])
+    if t == "float":
+        return float.fromhex(d["v"]) if d["v"].lstrip("-").startswith("0x") else float(d["v"])
+    if t == "complex":
+        return complex(*d["v"])
+    if t == "bytes":
+        return d["v"].encode("latin-1")
+    if t == "tuple":
+        return tuple(d["v"])
+    return object()
+
+
+def oracle_trial(ck, kind, p, v, verdict, reopen, stats, where="fresh", prs=None, nav=None, prepare=None, twin=None, frame=True, prep_spec=None):
+    """One assignment on a fresh object, judged by the property's statement alone.
+    prepare: brings the object into another state first (a prior assignment, or removal of the optional
+    elements the setter would create); twin: builds an identical second object on which the readings
+    before the assignment are taken when reading would itself insert elements."""
     prs = prs if prs is not None else kind.build()
     nav = nav or kind.nav
     obj = nav(prs)
     for q in kind.props:           # getters that get_or_add run once before the snapshot
         getp(obj, q.attr)
+    if prepare is not None:
+        prepare(obj)
+        obj = nav(prs)
     part = part_of(kind, prs, obj)
-    before_xml = c14n(part)
-    before = {q.attr: getp(obj, q.attr) for q in kind.props}
+    if twin is not None:
+        prs_t = twin()
+        obj_t = nav(prs_t)
+        for q in kind.props:
+            getp(obj_t, q.attr)
+        prepare(obj_t)
+        obj_t = nav(prs_t)
+        before = {q.attr: getp(obj_t, q.attr) for q in kind.props}
+        before_xml = c14n(part)
+    else:
+        before_xml = c14n(part)
+        before = {q.attr: getp(obj, q.attr) for q in kind.props}
+        if c14n(part) != before_xml:        # a getter inserted something: take the snapshot after it
+            before_xml = c14n(part)
     res = setp(obj, p.attr, v)
     ck.count((kind.name, p.attr, repr(v), where), verdict != "unjudged" or res[0] == "ok", "oracle:%s:%s" % (verdict, res[0]))
     stats["oracle"] += 1
-    rec = {"entry_point": p.name, "object": "%s (%s)" % (kind.name, where), "input": repr(v), "value_class": value_class(v)}
+    rec = {"entry_point": p.name, "object": "%s (%s)" % (kind.name, where), "input": repr(v), "value_class": value_class(v),
+           "object_kind": kind.name, "attr": p.attr, "value": val_spec(v), "prepare": prep_spec, "label": p.label}
     if res[0] == "err":
         if res[1] not in ("Type", "Value"):
             ck.violation("raises:%s:%s" % (p.name, res[2]), "%s = %r on a %s raises %s, not TypeError/ValueError" % (p.name, v, kind.name, res[2]),
@@ -792,7 +908,7 @@ def oracle_trial(ck, kind, p, v, verdict, reopen, stats, where="fresh", prs=None
             ck.violation("readback:%s:%s" % (p.name, value_class(v)), "%s = %r then reads %s (quantum %s)" % (p.name, v, reading_repr(read), p.quantum),
                          dict(rec, impl_outcome=reading_repr(read)))
     # frame: other, independent properties read as before
-    for q in kind.props:
+    for q in (kind.props if frame else []):
         if q is p or (p.group is not None and q.group == p.group):
             continue
         now = getp(obj, q.attr)
@@ -888,6 +1004,7 @@ def compare_history(kind, case, outs, st1, mo):
 def corpus_objects(rng, limit):
     """(kind name, deck path, navigator) for objects of the corpus decks."""
     from pptx import Presentation
+    from pptx.shapes.placeholder import _InheritsDimensions
     decks = sorted(glob.glob(os.path.join(REPO, "**", "*.pptx"), recursive=True))
     found = []
     for path in decks:
@@ -899,7 +1016,7 @@ def corpus_objects(rng, limit):
             for hi, shape in enumerate(slide.shapes):
                 tag = shape._element.tag.split("}")[1]
                 base = (lambda si=si, hi=hi: (lambda prs: prs.slides[si].shapes[hi]))()
-                if shape.is_placeholder and tag == "sp":
+                if isinstance(shape, _InheritsDimensions):
                     found.append(("placeholder", path, base))
                 elif tag in ("sp", "pic", "cxnSp"):
                     found.append(({"sp": "autoshape", "pic": "picture", "cxnSp": "connector"}[tag], path, base))
@@ -944,11 +1061,34 @@ def corpus_part(prs, obj):
 
 # ------------------------------------------------------------------ main
 def parse_diag(out):
+    """Eval vm_compute in (70xx%N, [list of str]) -> {70xx: [python strings]}"""
     import re
     res = {}
-    for m in re.finditer(r"=\s*\(?(7\d\d\d)%?N?,?\s*(.*?)\)?\s*:\s", out, re.S):
-        pass
+    for blk in re.split(r"\n\s*=\s*\(", "\n" + out)[1:]:
+        m = re.match(r"(7\d\d\d)%N,", blk)
+        if not m:
+            continue
+        body = blk[m.end():]
+        body = body.split("\n     :")[0]
+        strs = []
+        for sm in re.finditer(r"\[((?:\d+%N;?\s*)+)\]", body):
+            strs.append("".join(chr(int(x)) for x in re.findall(r"(\d+)%N", sm.group(1))))
+        res[int(m.group(1))] = strs
     return res
+
+
+def recover_assumptions(br, pid):
+    """When only the LAST theorem of the props file fails (unrecorded findings), keep the Print
+    Assumptions output of the theorems before it."""
+    import re
+    if br.ok or not br.log:
+        return
+    text = open(os.path.join(COQ, "props", pid + ".v"), encoding="utf-8").read()
+    printed = re.findall(r"Print Assumptions\s+([A-Za-z0-9_']+)", text)
+    tail = br.log.split("COQC props/%s.v" % pid)[-1]
+    blocks = re.split(r"(?=Closed under the global context|Axioms:)", tail)[1:]
+    for name, b in zip(printed, blocks):
+        br.assumptions[name] = b.split("\nFile ")[0].split("\nmake")[0].strip()
 
 
 def run(ck, tier, rng):
@@ -962,6 +1102,7 @@ def run(ck, tier, rng):
         ck.notes.append(out.strip().split("\n")[-1])
     meta = json.load(open(os.path.join(COQ, "gen", "c09_meta.json")))
     ck.build = coq_build("C09", extra_targets=["gen/GenC11.vo", "gen/GenC09.vo", "model/PropsRun.vo"])
+    recover_assumptions(ck.build, "C09")
     for u in meta["unmodelled"]:
         ck.violation("unmodelled:" + u[:100], "translator met a construct outside the model: " + u,
                      {"theorem_or_correspondence": "C09_no_unmodelled", "construct": u}, concrete=False)
@@ -1009,6 +1150,50 @@ def run(ck, tier, rng):
                     oracle_trial(ck, k, p, v, verdict, reopen=(not quick) or i % 3 == 0, stats=stats)
                 except Exception as e:  # noqa
                     ck.notes.append("oracle trial crashed: %s %s %r: %r" % (k.name, p.attr, v, e))
+
+    # ---- oracle on stripped objects: the optional elements a setter would create are removed first
+    #      (the states the model's witnesses of non-atomic setters start from)
+    footprints = {}
+    if have_model:
+        lbls = sorted({p.label for k in kinds for p in k.props if p.label})
+        try:
+            outs = run_model("C09", [["fp", l] for l in lbls])
+            footprints = {l: [x for x in o.split("|") if x] for l, o in zip(lbls, outs) if o != "badcase"}
+        except Exception as e:  # noqa
+            ck.notes.append("footprints unavailable: %r" % e)
+    stats["stripped"] = 0
+    for k in kinds:
+        if k.anchor is None:
+            continue
+        for p in k.props:
+            fp = footprints.get(p.label or "", [])
+            if not fp:
+                continue
+            prep = (lambda k=k, fp=fp: (lambda obj: strip(k.anchor(obj), fp, k.nv)))()
+            vals = [(v, "invalid") for v in p.invalid[:5]] + [(v, "valid") for v in p.valid[:2]]
+            for v, verdict in vals:
+                try:
+                    oracle_trial(ck, k, p, v, verdict, reopen=False, stats=stats, where="stripped", prepare=prep, twin=k.build, frame=False,
+                                 prep_spec={"strip": fp})
+                    stats["stripped"] += 1
+                except Exception as e:  # noqa
+                    ck.notes.append("stripped trial crashed: %s %s %r: %r" % (k.name, p.attr, v, e))
+
+    # ---- oracle after a prior accepted assignment: a refused value must not lose the explicit setting
+    stats["primed"] = 0
+    for k in kinds:
+        for p in k.props:
+            firsts = [v for v in p.valid if v is not None and not (p.truthy and not v)][:1]
+            if not firsts or not p.invalid:
+                continue
+            prep = (lambda p=p, v0=firsts[0]: (lambda obj: setp(obj, p.attr, v0)))()
+            for v in p.invalid[:4]:
+                try:
+                    oracle_trial(ck, k, p, v, "invalid", reopen=False, stats=stats, where="after %s = %r" % (p.attr, firsts[0]), prepare=prep,
+                                 prep_spec={"assign": val_spec(firsts[0])})
+                    stats["primed"] += 1
+                except Exception as e:  # noqa
+                    ck.notes.append("primed trial crashed: %s %s %r: %r" % (k.name, p.attr, v, e))
 
     # ---- correspondence on fresh objects: random histories
     cases, expect = [], []
@@ -1089,7 +1274,15 @@ def run(ck, tier, rng):
     if rc != 0:
         ck.notes.append("diagnostics did not compile: " + dout[-300:])
     else:
-        diag["raw"] = dout[-1500:]
+        diag = parse_diag(dout)
+    found_sigs = {v["sig"] for v in ck.violations} | {s_ for s_, _w in ck.known_hits}
+    unreplayed = []
+    for cn in sorted(set(diag.get(7003, []))):
+        if ("reject-mutates:" + cn) not in found_sigs and ("reject-residue:" + cn) not in found_sigs:
+            unreplayed.append(cn)
+            ck.violation("nonatomic-unreplayed:" + cn,
+                         "the model finds a refused assignment to %s that changes the element (Diag_C09, C09_nonatomic_witness_sound) but no such assignment was reproduced on the implementation" % cn,
+                         {"theorem_or_correspondence": "C09_no_unknown_nonatomic", "property": cn}, concrete=False)
 
     any_concrete = any(v["concrete"] for v in ck.violations) or bool(ck.known_hits)
     if diffs and not any_concrete:
@@ -1106,11 +1299,46 @@ def run(ck, tier, rng):
                "settable_properties": len(meta["settable"]),
                "oracle_only_exercised": sorted("%s.%s" % x for x in exercised if x in oo_pairs),
                "oracle_only_not_exercised": sorted("%s.%s" % x for x in oo_pairs if x not in exercised),
+               "model_nonatomic": diag.get(7002, []), "model_nonatomic_unrecorded": sorted(set(diag.get(7003, []))),
+               "model_nonatomic_not_reproduced": unreplayed,
                "counts": stats, "correspondence_diffs": diffs, "histories": len(cases), "exhaustive": False})
 
 
 def replay(rec):
-    print(json.dumps({k: rec.get(k) for k in ("entry_point", "object", "input", "impl_outcome", "what")}, indent=1))
+    """Re-execute one stored assignment on the implementation (and on the model when the property is
+    in the catalogue) and print both outcomes."""
+    import random
+    if "object_kind" not in rec:
+        print(json.dumps({k: rec.get(k) for k in ("signature", "what", "theorem_or_correspondence")}, indent=1))
+        return 0
+    kinds = {k.name: k for k in make_kinds(random.Random(0))}
+    k = kinds[rec["object_kind"]]
+    if "(fresh)" not in rec.get("object", "") and "(stripped)" not in rec.get("object", "") and "(after " not in rec.get("object", ""):
+        from pptx import Presentation
+        where = rec["object"].split("(", 1)[1].rstrip(")")
+        print("corpus object of", where, "- replaying on a fresh", k.name)
+    p = next(q for q in k.props if q.attr == rec["attr"])
+    v = val_from_spec(rec["value"])
+    prs = k.build()
+    obj = k.nav(prs)
+    for q in k.props:
+        getp(obj, q.attr)
+    prep = rec.get("prepare") or {}
+    if "strip" in prep and k.anchor is not None:
+        strip(k.anchor(obj), prep["strip"], k.nv)
+    if "assign" in prep:
+        setp(obj, p.attr, val_from_spec(prep["assign"]))
+    obj = k.nav(prs)
+    part = part_of(k, prs, obj)
+    st0 = model_state(k, obj)
+    x0 = c14n(part)
+    res = setp(obj, p.attr, v)
+    x1 = c14n(part)
+    print("%s = %r on a %s -> %s ; XML of the part %s" % (p.name, v, k.name, res, "UNCHANGED" if x0 == x1 else "CHANGED"))
+    print("readings after:", {q.attr: reading_repr(getp(obj, q.attr)) for q in k.props})
+    if p.label and os.path.exists(os.path.join(COQ, "extract", "run_c09")) and modelable(v):
+        mo = run_model("C09", [["seq", state_field(st0), "s %s %s|g %s" % (p.label, enc_aval(v), p.label)]])[0]
+        print("model:", mo.split("#")[0])
     return 0
 
 
